@@ -1,5 +1,170 @@
 package main
 
-import tl "verif/harness/tracelib"
+import (
+	"fmt"
 
-func runRecord(e *env, path string, n, steps int) { tl.Fatal("record mode not implemented yet") }
+	"github.com/ethereum/go-ethereum/common"
+	"github.com/ethereum/go-ethereum/trie"
+	tk "verif/harness/triekit"
+	tl "verif/harness/tracelib"
+)
+
+type nodeInfo struct {
+	Path   []int `json:"path"`
+	Stored bool  `json:"stored"`
+}
+
+// keyPool draws 64-nibble keys with shared prefixes and late differences, so that the
+// histories create and collapse extension nodes and deep branches.
+func keyPool(e *env, n int) [][]int {
+	prefixes := [][]int{{}, {}, {3}, {3, 4}, {3, 4, 5, 6, 7}, {15, 15}, {9, 9, 9, 9, 9, 9, 9, 9}}
+	seen := map[string]bool{}
+	var out [][]int
+	for len(out) < n {
+		k := append([]int{}, prefixes[e.r.Intn(len(prefixes))]...)
+		for len(k) < 64 {
+			k = append(k, e.r.Intn(16))
+		}
+		if len(out) > 0 && e.r.Intn(3) == 0 {
+			k = append([]int{}, out[e.r.Intn(len(out))]...)
+			k[50+e.r.Intn(14)] = e.r.Intn(16)
+		}
+		if !seen[fmt.Sprint(k)] {
+			seen[fmt.Sprint(k)] = true
+			out = append(out, k)
+		}
+	}
+	return out
+}
+
+func randVal(e *env) int {
+	size := 1 + e.r.Intn(3)
+	if e.r.Intn(2) == 0 {
+		size = 25 + e.r.Intn(12)
+	}
+	return size*10 + e.r.Intn(10)
+}
+
+func listing(tr *trie.Trie) (root string, nodes []nodeInfo, leaves int, err error) {
+	root = tr.Hash().Hex()
+	it, err := tr.NodeIterator(nil)
+	if err != nil {
+		return "", nil, 0, err
+	}
+	nodes = []nodeInfo{}
+	for it.Next(true) {
+		if it.Leaf() {
+			leaves++
+			continue
+		}
+		p := make([]int, len(it.Path()))
+		for i, b := range it.Path() {
+			p[i] = int(b)
+		}
+		nodes = append(nodes, nodeInfo{p, it.Hash() != (common.Hash{})})
+	}
+	return root, nodes, leaves, it.Error()
+}
+
+func runRecord(e *env, path string, n, steps int) {
+	tr := tl.NewTrace(path)
+	defer tr.Close()
+	shapes := map[string]bool{}
+	for t := 0; t < n; t++ {
+		pool := keyPool(e, 6+e.r.Intn(30))
+		store := tk.NewPathStore()
+		real := trie.NewEmpty(store)
+		tr.Emit(tl.M{"op": "reset"})
+		shape := ""
+		for s := 0; s < steps; s++ {
+			ev := tl.M{"ops": []tk.KV{}, "k": []int{}, "v": 0}
+			var err error
+			switch c := e.r.Intn(10); {
+			case c < 4:
+				k, v := pool[e.r.Intn(len(pool))], randVal(e)
+				err = real.Update(tk.KeyBytes(k, 0), tk.ValBytes(v))
+				ev["op"], ev["k"], ev["v"] = "put", k, v
+			case c < 6:
+				k := pool[e.r.Intn(len(pool))]
+				if e.r.Intn(2) == 0 {
+					err = real.Delete(tk.KeyBytes(k, 0))
+					ev["op"] = "del"
+				} else {
+					err = real.Update(tk.KeyBytes(k, 0), nil)
+					ev["op"] = "putempty"
+				}
+				ev["k"] = k
+			default:
+				// batch below / at / above the parallel threshold, deletions mixed in
+				m := []int{1, 3, 4, 5, 9, 17}[e.r.Intn(6)]
+				ops := make([]tk.KV, m)
+				keys, vals := make([][]byte, m), make([][]byte, m)
+				for i := range ops {
+					ops[i] = tk.KV{K: pool[e.r.Intn(len(pool))], V: randVal(e)}
+					if e.r.Intn(4) == 0 {
+						ops[i].V = 0
+					}
+					keys[i], vals[i] = tk.KeyBytes(ops[i].K, 0), tk.ValBytes(ops[i].V)
+				}
+				err = real.UpdateBatch(keys, vals)
+				ev["op"], ev["ops"] = "batch", ops
+			}
+			if err != nil {
+				e.sum.Violate(fmt.Sprintf("trace %d step %d %v: %v", t, s, ev["op"], err), tl.M{"event": ev})
+				break
+			}
+			shape += ev["op"].(string)[:1]
+			// sampled lookups
+			gets := []tk.KV{}
+			for g := 0; g < 3; g++ {
+				k := pool[e.r.Intn(len(pool))]
+				v, err := real.Get(tk.KeyBytes(k, 0))
+				if err != nil {
+					e.sum.Violate(fmt.Sprintf("trace %d step %d Get: %v", t, s, err), tl.M{"event": ev})
+				}
+				gets = append(gets, tk.KV{K: k, V: tk.ValID(v)})
+			}
+			ev["gets"] = gets
+			ev["has"], ev["root"], ev["nodes"], ev["leaves"] = false, "", []nodeInfo{}, 0
+			if e.r.Intn(4) == 0 || s == steps-1 {
+				root, nodes, leaves, err := listing(real)
+				if err != nil {
+					e.sum.Violate(fmt.Sprintf("trace %d step %d NodeIterator: %v", t, s, err), tl.M{"event": ev})
+					break
+				}
+				ev["has"], ev["root"], ev["nodes"], ev["leaves"] = true, root, nodes, leaves
+			}
+			tr.Emit(ev)
+			e.sum.Count(ev["op"].(string))
+			if t == 0 && s < 2 {
+				e.sum.Sample(tl.M{"op": ev["op"], "k": ev["k"], "v": ev["v"], "ops": ev["ops"], "gets": gets})
+			}
+			// now and then continue on a committed and reopened trie
+			if e.r.Intn(25) == 0 {
+				root, set := real.Commit(false)
+				if set != nil {
+					for p, nd := range set.Nodes {
+						if nd.IsDeleted() {
+							delete(store.Nodes, p)
+						} else {
+							store.Nodes[p] = nd.Blob
+						}
+					}
+				}
+				if real, err = trie.New(trie.TrieID(root), store); err != nil {
+					e.sum.Violate(fmt.Sprintf("trace %d step %d reopen: %v", t, s, err), tl.M{})
+					break
+				}
+				e.sum.Count("commit+reopen")
+			}
+		}
+		e.sum.Traces++
+		e.sum.Evaluations++
+		if !shapes[shape] {
+			shapes[shape] = true
+			e.sum.Distinct++
+		}
+	}
+	e.sum.Steps = tr.N
+	e.sum.Rule = "seeded random histories (Update / Delete / empty-value Update / UpdateBatch of 1..17 entries) over pools of 6..35 32-byte keys with shared prefixes; distinct = distinct operation-kind sequences"
+}
